@@ -85,6 +85,8 @@ def wrappings(t, tier):
         yield replace(t, p, lambda x: ("fwd", x, "kw"))     # hooks written with **kwargs only
         yield replace(t, p, lambda x: ("fwd", x, "attr"))   # target kept outside props
         yield replace(t, p, lambda x: ("fwd", x, "set"))    # target written with Props.set
+        yield replace(t, p, lambda x: ("fwd", x, "named"))  # class named like a built-in (`Int`)
+        yield replace(t, p, lambda x: ("fwd", x, "rereg"))  # registered again under the same name
     pairs = [(p, q) for p, q in itertools.combinations(pos, 2)
              if p[:len(q)] != q and q[:len(p)] != p]          # disjoint positions
     for p, q in pairs[:MAXPAIRS[tier]]:
